@@ -19,7 +19,7 @@ for l in open(after):
     dst = os.path.join(os.path.dirname(os.path.abspath(__file__)), "seeded", sid)
     os.makedirs(dst, exist_ok=True)
     shutil.copy(d["patch"], dst + "/patch.diff")
-    shutil.copy(d["patch"].replace("seed", "demo").replace(".diff", ".py"), dst + "/demo.py")
+    shutil.copy(os.path.join(os.path.dirname(d["patch"]), f"demo{n}.py"), dst + "/demo.py")
     desc = open(d["patch"].replace(".diff", ".txt")).read() if os.path.exists(d["patch"].replace(".diff", ".txt")) else ""
     res = {k: v for k, v in d.items() if k.startswith("C") and isinstance(v, dict)}
     b = before.get(d["patch"], {})
